@@ -37,6 +37,7 @@ func (c *Ctx) pushFrame(s *State, fn *ssa.Function, args []Value, binds []Value)
 		}
 	}
 	fr.entry = s.snapshot()
+	fr.entryClock = s.clock
 	s.frames = append(s.frames, fr)
 	return fr
 }
